@@ -208,6 +208,42 @@ def compose_parts(pid: str, tier: str):
     return parts
 
 
+HIST_FUNCS = ["tawazi._dag.dag.DAG.__call__", "tawazi._dag.dag.DAG.setup", "tawazi._dag.dag.DAG.run_subgraph", "tawazi._dag.dag.AsyncDAG.setup", "tawazi._dag.dag.AsyncDAG.run_subgraph",
+              "tawazi._dag.dag.BaseDAG._pre_setup", "tawazi._dag.dag.BaseDAGExecution.__post_init__", "tawazi._dag.dag.BaseDAGExecution._pre_call", "tawazi._dag.dag.BaseDAGExecution._post_call",
+              "tawazi._dag.dag.BaseDAGExecution._cache_results", "tawazi._dag.dag.DAGExecution.__call__", "tawazi._dag.dag.BaseDAG.compose", "tawazi._dag.dag.BaseDAG.config_from_dict",
+              "tawazi._dag.helpers.async_execute", "tawazi._dag.helpers.copy_non_setup_xns", "tawazi._dag.helpers.extend_results_with_args", "tawazi._dag.helpers.get_return_values",
+              "tawazi.node.node.LazyExecNode._validate_dependencies", "tawazi._dag.digraph.DiGraphEx.from_exec_nodes", "tawazi._dag.digraph.DiGraphEx.make_subgraph"]
+
+
+def history_parts(pid: str, tier: str):
+    from harness.history import HCfg, run_c11, run_c15, run_c18
+
+    P = functools.partial
+    q = tier == "quick"
+    parts = []
+    if pid == "C11":
+        b = {"N": 3, "setup placement": "every subset (invalid ones must be rejected)", "operations": "call, setup(), executor(), executor(target=[i]), setup(target=[i]), deepcopy-then-continue"}
+        parts.append(Part("histories-len2", P(run_c11, HCfg(N=3, length=2, flavours="sa")), dict(b, length=2, flavours="sync+async"), 900, 8, ["w_invalid_rejected", "w_reuse", "w_deepcopy"], HIST_FUNCS))
+        parts.append(Part("histories-len3-N2", P(run_c11, HCfg(N=2, length=3, flavours="s")), dict(b, N=2, length=3), 900, 8, ["w_reuse"], HIST_FUNCS))
+        if not q:
+            parts.append(Part("histories-len3", P(run_c11, HCfg(N=3, length=3, flavours="sa")), dict(b, length=3), 2400, 9, ["w_reuse", "w_deepcopy"], HIST_FUNCS))
+            parts.append(Part("histories-len4-N2", P(run_c11, HCfg(N=2, length=4, flavours="s")), dict(b, N=2, length=4), 2400, 9, ["w_reuse"], HIST_FUNCS))
+    elif pid == "C15":
+        b = {"programs": 3, "operations": "call (default omitted / supplied), failing call, executor create (whole / target), run, failing run, compose + call of the composed DAG, config_from_dict",
+             "final operation": "a call with fresh symbolic arguments"}
+        parts.append(Part("histories-len3", P(run_c15, HCfg(length=3, flavours="s")), dict(b, length="3+1"), 900, 8, ["w_final_call", "w_failed_call", "w_refused_rerun", "w_rerun_after_failure", "w_compose", "w_config"], HIST_FUNCS))
+        parts.append(Part("histories-len3-async", P(run_c15, HCfg(length=3, flavours="a")), dict(b, length="3+1", flavour="async"), 900, 8, ["w_final_call", "w_rerun_after_failure"], HIST_FUNCS))
+        if not q:
+            parts.append(Part("histories-len4", P(run_c15, HCfg(length=4, flavours="s")), dict(b, length="4+1"), 2400, 9, ["w_final_call"], HIST_FUNCS))
+    elif pid == "C18":
+        b = {"N": 3, "caching selection": "whole, target=[i], cache_deps_of=[i]", "restart": "same selection or whole DAG; on the same instance or on a pristine deep copy", "setup": "first node optionally a setup node"}
+        parts.append(Part("cache-restart", P(run_c18, HCfg(N=3, length=2)), b, 900, 8, ["w_deps_of_restart"], HIST_FUNCS))
+        parts.append(Part("cache-restart-two-rounds-N2", P(run_c18, HCfg(N=2, length=4)), dict(b, N=2, rounds="two caching runs on the same file, each followed by a restart"), 900, 8, ["w_second_round"], HIST_FUNCS))
+        if not q:
+            parts.append(Part("cache-restart-two-rounds", P(run_c18, HCfg(N=3, length=4)), dict(b, rounds=2), 2400, 9, ["w_second_round"], HIST_FUNCS))
+    return parts
+
+
 def dataclass_bounds(cfg):
     import dataclasses
 
@@ -250,6 +286,10 @@ def main(argv):
         rule = ("programs x (inputs, outputs) x alias form, all solver-chosen; composed DAG called with fresh symbolic values; reference = original program with the input "
                 "nodes' values substituted; distinct = distinct (program, inputs, outputs, alias form)")
         return run_check(pid, tier, "translation_validation", compose_parts(pid, tier), REAL_ENV_ASSUMPTIONS, rule)
+    if pid in ("C11", "C15", "C18"):
+        rule = ("operation histories on one DAG instance: every sequence of operations up to the stated length x program / setup placement / selection is a solver-chosen path; "
+                "call arguments are fresh symbolic values and node values are terms, so result equalities are decided by z3; distinct = distinct (program, history)")
+        return run_check(pid, tier, "model_checking", history_parts(pid, tier), REAL_ENV_ASSUMPTIONS, rule)
     print("HARNESS-ERROR unknown property %s" % pid)
     return 2
 
